@@ -15,8 +15,14 @@ MANIFEST = dict(
          "corollaries reopen_returns_exactly_acked, no_invented_entry, acked_only, "
          "last_index_term_is_last_acked, entries_contiguous_in_order, record_roundtrip, "
          "full_only_at_block_end. The multi-file manager (catalogue, rollover, batch re-submission, pointer "
-         "logs, split-off, id re-use) is modelled literally; proved for it: query routing over the files "
-         "(manager_query_partial); the full catalogue refinement is left to the correspondence. Model tied "
+         "logs, split-off, delete-from with dropped files, id re-use, restart) is modelled literally and proved "
+         "to refine ONE abstract log: catalogue invariant mgr_rep (distinct increasing ids, one well-formed actor "
+         "per range, closed ranges with exact counts, contiguity of the visible parts, current = last open range, "
+         "saved = in-memory catalogue), preserved by every operation; forward simulation mgr_refines_alog for every "
+         "history over {append, batch, delete-from, query, last index, snapshot pointer install / install ahead "
+         "of the log / build, restart}; corollaries manager_query, reopen_returns_exactly_acked_multi_file "
+         "(the old routing theorem manager_query_partial is kept). Scope of the manager theorems (mops_ok): "
+         "delete-from and new pointers not below the newest snapshot pointer. Model tied "
          "to the code by differential runs of the real LogInnerManager and the real FileStore actor chain "
          "(harness suites logfile, filestore) on seeded nasty histories, plus an independent property oracle.",
     note="Trusted: Coq kernel+vm_compute, the hand transcription (checked by the correspondence), harness and "
